@@ -15,6 +15,7 @@ once in a while the whole worker_utils.planning.
   when no disjoint pair honours them.
 """
 import copy
+import json
 
 from common.util import Result, err_kind
 from common import meshes, routing
@@ -26,7 +27,11 @@ THEOREMS = [f'Gnpy.Route.{t}' for t in (
     'linkDisjoint_checker', 'allDisjoint_checker', 'linkDisjoint_symm', 'linkDisjoint_iff', 'oms_disjoint_iff_links',
     'zip_sites', 'linksOf_of_sites', 'isdisjoint_test_iff_linkDisjoint', 'disjointOracle_iff',
     'step2_combinations_disjoint', 'step2_combinations_good', 'selection_sound', 'step4_nil_iff',
-    'step5_single_none_iff', 'pair_complete', 'group_complete_partial', 'overlapping_complete_fails_current')]
+    'step5_single_none_iff', 'pair_complete', 'group_complete_partial', 'overlapping_complete_fails_current')] + [
+    f'Gnpy.Sync.{t}' for t in (
+        'dedup_spec', 'dedup_no_duplicates_fails_current', 'aggregation_preserves_disjointness_demands',
+        'aggregation_pair_demand', 'partners_never_merged', 'merge_requires_same_disj')] + [
+    'Gnpy.Route.single_vector_complete', 'Gnpy.Route.single_vector_complete_distinct']
 RULE = ('one PRNG; a case is a random mesh (ring with chords / grid / random connected graph, quick 4-7 ROADMs, thorough '
         'up to 10; bidirectional links of 1-3 spans, symmetric or not) designed by GNPy, 2-6 requests (often sharing '
         'end points, as in 1+1 protection; ~35 % with STRICT / LOOSE / mixed include lists of ROADMs or line elements) '
@@ -34,16 +39,20 @@ RULE = ('one PRNG; a case is a random mesh (ring with chords / grid / random con
         'half of the cases hold exactly one pair (completeness is judged there). Unsatisfiable vectors (bridges, '
         'trees, contradictory STRICT lists) are the rejected stream: DisjunctionError. ~22 % of the cases are overlapping '
         'vectors around one shared request with a 1+1 twin in a well-connected mesh (later vectors must stay consistent '
-        'with the path already fixed). Non-trivial = some vector has a '
+        'with the path already fixed); ~15 % stress the vector bookkeeping: identical requests (aggregation) with equal or '
+        'different partners, vectors repeated 2-7 times with permuted ids. Non-trivial = some vector has a '
         'request with at least two candidate paths.')
 MODEL_SCOPE = ('modelled: isdisjoint, the short list of step 1, find_reversed_path (C11), steps 2-5 of '
                'compute_path_dsjctn over candidate indices incl. Python remove-while-iterating semantics and '
-               'remove_candidate; oracle instead of a model for networkx all_simple_paths (candidate lists of step 1 are '
-               'inputs of the selection model). One STRICT hop makes a list STRICT. not modelled: requests_aggregation / '
-               'deduplicate_disjunctions (observed through the groups the monitor checks), propagation, spectrum')
-PARTIAL = ['completeness (a disjoint solution is found whenever one exists) is proved and monitored for one pair of '
-           'requests only; for larger or overlapping synchronisation vectors only soundness is claimed: the first '
-           'combination of one vector can exclude every combination of another (step 5 has no backtracking)']
+               'remove_candidate; deduplicate_disjunctions (nested remove-while-iterating) and the vector bookkeeping of '
+               'requests_aggregation (group G\'s C19 model requestsAggregationD, imported) under exact correspondence; '
+               'oracle instead of a model for networkx all_simple_paths (candidate lists of step 1 are inputs of the '
+               'selection model). One STRICT hop makes a list STRICT. not modelled: propagation, spectrum')
+PARTIAL = ['completeness (a disjoint solution is found whenever one exists) is proved for one pair of requests and for '
+           'ONE vector of any size under the explicit NoOrphan hypothesis (single_vector_complete; the hypothesis holds '
+           'for pairs and whenever the requests have pairwise different end points), and monitored for pairs; for '
+           'several / overlapping vectors only soundness is claimed: the first combination of one vector can exclude '
+           'every combination of another (step 5 has no backtracking; witness overlapping_complete_fails_current)']
 
 MANIFEST = {
     'text': 'Lean 4 theorems over a model of compute_path_dsjctn steps 2-5 (candidate combinations, Python '
@@ -56,9 +65,11 @@ MANIFEST = {
             'link-disjoint pair of candidates (<= 80 hops) exists. The selection model is fed with the real candidate '
             'lists and compared path-by-path with the code on every run; returned paths go through the verified checker '
             'and an independent OMS-based monitor.',
-    'note': 'networkx all_simple_paths is not modelled (its candidate lists are inputs of the selection model); '
-            'requests_aggregation / deduplicate_disjunctions are observed through the monitor only. Completeness is claimed '
-            'for a single pair only. Trusted base: Lean 4.33 kernel (+ leanchecker in thorough), Mathlib v4.33, axioms '
+    'note': 'networkx all_simple_paths is not modelled (its candidate lists are inputs of the selection model). '
+            'deduplicate_disjunctions (own model) and the vector bookkeeping of requests_aggregation (group G\'s C19 model, '
+            'imported) are under exact correspondence: dedup_spec (nothing invented, nothing lost; "no duplicates left" is '
+            'false for the code and harmless), aggregation_preserves_disjointness_demands (every declared vector survives '
+            'with renamed ids), partners_never_merged. Completeness is claimed for a single pair only. Trusted base: Lean 4.33 kernel (+ leanchecker in thorough), Mathlib v4.33, axioms '
             'propext/Classical.choice/Quot.sound only.',
     'technique': 'Lean 4 theorems over an executable model of the candidate selection + verified disjointness checker and '
                  'pair oracle, differential correspondence against the real code, independent monitor',
@@ -97,9 +108,38 @@ def gen_overlap(rng, tier):
     return {'kind': 'disj', 'mesh': mesh, 'reqs': reqs, 'sync': sync, 'via': 'dsjctn'}
 
 
+def gen_sync(rng, tier):
+    """stress of the vector bookkeeping: several identical requests (aggregation candidates, with equal or different
+    sets of partners), vectors repeated 2-4 times with permuted ids, on a small ring so that paths usually exist"""
+    n = rng.choice([4, 5, 5, 6])
+    mesh = meshes.rand_mesh(rng, n, shape='ring')
+    for lk in mesh['links']:
+        lk[2], lk[3], lk[4] = lk[2][:1], lk[3][:1], 'plain'
+    k = rng.randint(3, 6)
+    ends = [tuple(rng.sample(range(n), 2)) for _ in range(rng.choice([1, 2, 2, 3]))]
+    reqs = []
+    for i in range(k):
+        s, t = rng.choice(ends)
+        reqs.append({'id': i, 'src': ['T', s], 'dst': ['T', t], 'inc': [], 'bidir': rng.random() < 0.15,
+                     'mode': 'mode 1' if rng.random() < 0.85 else 'mode 2'})
+    pool = []
+    for _ in range(rng.choice([1, 2, 2, 3])):
+        pool.append(rng.sample(range(k), min(k, rng.choice([2, 2, 3]))))
+    sync = []
+    for _ in range(rng.choice([1, 2, 3, 4, 5, 6, 7])):
+        g = list(rng.choice(pool))
+        if rng.random() < 0.5:
+            rng.shuffle(g)
+        sync.append(g)
+    return {'kind': 'disj', 'mesh': mesh, 'reqs': reqs, 'sync': sync, 'via': 'dsjctn' if rng.random() < 0.95 else 'planning'}
+
+
 def gen(rng, tier, widen=False):
-    if rng.random() < (0.5 if widen else 0.22):
+    r = rng.random()
+    if r < (0.4 if widen else 0.2):
         return gen_overlap(rng, tier)
+    if r < (0.7 if widen else 0.35):
+        return gen_sync(rng, tier)
     if tier == 'quick':
         n = rng.choice([4, 5, 5, 6, 6, 7])
     else:
@@ -170,6 +210,80 @@ def step1_candidates(net, rq):
     return allp
 
 
+def _req_key(q):
+    """the fields compare_reqs looks at besides the vectors (harness transliteration; ids, bandwidth, N/M are not compared)"""
+    return json.dumps([q.source, q.destination, q.tsp, q.tsp_mode, q.baud_rate, q.nodes_list, q.loose_list, q.spacing,
+                       q.power, q.nb_channel, q.f_min, q.f_max, q.format, q.OSNR, q.roll_off, q.tx_power,
+                       bool(q.bidir)], default=str)
+
+
+def sync_bookkeeping(res, drv, rqs, d0, declared):
+    """deduplicate_disjunctions + requests_aggregation on the real objects, both under exact correspondence with the
+    model (vector ids, order, request ids inside every vector, duplicates), and the MONITOR of what the user declared:
+    every pair of request ids that some declared vector wants disjoint is still demanded disjoint - between the
+    requests that absorbed them - by some vector handed to the path computation.  -> (rqs, dsjn) or None"""
+    from gnpy.topology.request import deduplicate_disjunctions, requests_aggregation
+    from common.util import f2b
+    before = [{'id': str(d.disjunction_id), 'reqs': [str(x) for x in d.disjunctions_req]} for d in d0]
+    try:
+        d1 = deduplicate_disjunctions(d0)
+    except Exception as e:
+        res.fail(f'deduplicate_disjunctions raised {err_kind(e)}: {str(e)[:100]}')
+        return None
+    after = [[str(d.disjunction_id), [str(x) for x in d.disjunctions_req]] for d in d1]
+    m = drv.ask('c12.dedup', disjunctions=before)
+    res.cmp_exact('deduplicate_disjunctions', after, [[x['id'], x['reqs']] for x in m])
+    sets_in = [frozenset(b['reqs']) for b in before]
+    sets_out = [frozenset(r) for _, r in after]
+    for sv in set(sets_in):
+        if sv not in sets_out:
+            res.fail(f'vector lost: deduplicate_disjunctions dropped every vector over {sorted(sv)}')
+    if any([i, r] not in [[b['id'], b['reqs']] for b in before] for i, r in after):
+        res.fail('vector invented: deduplicate_disjunctions returned a vector that was not declared')
+    res.stats['dedup_removed'] += len(before) - len(after)
+    res.stats['dedup_duplicates_left'] += int(len(set(sets_out)) < len(sets_out))
+    # ---- aggregation
+    agg_in = [{'id': q.request_id, 'key': _req_key(q), 'has_mode': q.tsp_mode is not None, 'bw': f2b(q.path_bandwidth),
+               'N': [None if x is None else int(x) for x in q.N], 'M': [None if x is None else int(x) for x in q.M]}
+              for q in rqs]
+    ds_in = [{'id': i, 'reqs': r} for i, r in after]
+    orig_ids = [q.request_id for q in rqs]
+    try:
+        rqs2, d2 = requests_aggregation(rqs, d1)
+    except Exception as e:
+        res.fail(f'requests_aggregation raised {err_kind(e)}: {str(e)[:100]}')
+        return None
+    m = drv.ask('c12.aggregation', requests=agg_in, disjunctions=ds_in)
+    out_ids = [q.request_id for q in rqs2]
+    out_vecs = [[str(d.disjunction_id), [str(x) for x in d.disjunctions_req]] for d in d2]
+    res.cmp_exact('requests_aggregation.request_ids', out_ids, m['requests'])
+    res.cmp_exact('requests_aggregation.vectors', out_vecs, [[x['id'], x['reqs']] for x in m['disjunctions']])
+    res.cmp_exact('requestsAggregationT = requestsAggregationD', True, m['traced_same'])
+    final = {}
+    for rid in out_ids:
+        for part in rid.split(' | '):
+            final[part] = rid
+    res.cmp_exact('requests_aggregation.renaming', [[x, final.get(x)] for x in orig_ids], m['renamed'])
+    res.stats['aggregated_requests'] += len(orig_ids) - len(out_ids)
+    # ---- monitor: the demands the user declared survive
+    for grp in declared:
+        for i in range(len(grp)):
+            for j in range(i + 1, len(grp)):
+                x, y = grp[i], grp[j]
+                if x == y:
+                    continue
+                fx, fy = final.get(x), final.get(y)
+                if fx is None or fy is None:
+                    res.fail(f'request lost: request {x if fx is None else y} of vector {grp} disappeared in the aggregation')
+                elif fx == fy:
+                    res.fail(f'merged partners: requests {x} and {y} of vector {grp} were aggregated into one request '
+                             f'{fx}: they cannot be routed disjoint any more')
+                elif not any(fx in r and fy in r for _, r in out_vecs):
+                    res.fail(f'demand lost: vector {grp} wants {x} and {y} disjoint, but no vector handed to the path '
+                             f'computation holds both {fx} and {fy} (vectors {out_vecs})')
+    return rqs2, d2
+
+
 def check_route_basic(net, res, rid, src, dst, path):
     if path[0] != src or path[-1] != dst:
         res.fail(f'end points: path of request {rid} runs {path[0]} -> {path[-1]}, requested {src} -> {dst}')
@@ -223,8 +337,10 @@ def run(case, drv):
     else:
         rqs = requests_from_json(data, net.eq)
         rqs = correct_json_route_list(net.net, rqs)
-        dsjn = deduplicate_disjunctions(disjunctions_from_json(data))
-        rqs, dsjn = requests_aggregation(rqs, dsjn)
+        dsjn = sync_bookkeeping(res, drv, rqs, disjunctions_from_json(data), sync)
+        if dsjn is None:
+            return res
+        rqs, dsjn = dsjn
         # inputs of the selection model, captured before compute_path_dsjctn edits the requests
         in_groups = {x for d in dsjn for x in d.disjunctions_req}
         disjt = [rq for rq in rqs if rq.request_id in in_groups]
